@@ -322,6 +322,13 @@ def stepLine (hints : List HashHint) (t : Toks) : List HashHint × String :=
       | some m => (hints, "ok " ++ nf m)
       | none => (hints, "err")
     | none => (hints, "bad-op")
+  | ["decbad", h] =>
+    match parseHex h with
+    | some bs => match decodeMsg hash bs with
+      | some m => (hints, "ok " ++ nf m)
+      | none => (hints, "err")
+    | none => (hints, "bad-op")
+  | ["stall", _] => (hints, "served")
   | ["stream", h] =>
     match parseHex h with
     | some bs => (hints, streamLine hash bs)
